@@ -67,7 +67,9 @@ class SolvedBlock(Block, Parent):
                 # TODO: replace this with default option
                 kwargs['solver'] = self.solver
 
-        return self.block.solve_steady_state(calibration, unknowns, self.targets, dissolve=dissolve, options=options, **kwargs)
+        # the wrapped block only knows its own descendants: do not hand it this block's name
+        inner_dissolve = [k for k in dissolve if k != self.name]
+        return self.block.solve_steady_state(calibration, unknowns, self.targets, dissolve=inner_dissolve, options=options, **kwargs)
 
     def _impulse_nonlinear(self, ss, inputs, outputs, internals, Js, options, ss_initial, **kwargs):
         return self.block.solve_impulse_nonlinear(ss, OrderedSet(self.unknowns), OrderedSet(self.targets),
